@@ -421,6 +421,9 @@ def cycle_update_rules(ctx):
     from . import formulas
     formulas.schedule_cost_signs(ctx, "R3")
     formulas.transition_total_signs(ctx, "R3")
+    from .C16 import violation_of_argument
+    violation_of_argument(ctx, "R3")           # the violation cached with freshly installed transitions
+    formulas.cluster_loops(ctx, "R3")           # the from-scratch counters of the greedy clustering (new_fast)
     formulas.transition_formulas(ctx, "R3")
     formulas.transition_counter_deltas(ctx, "R3")
     common.bookkeeping_sees_new_maps(ctx, "R3", common.sites_of(ctx, SCHEDULE))
